@@ -173,7 +173,7 @@ fn check_tuple<const D: usize>(rep: &Report, cn: &Counters, simplex: &[[f64; D]]
 fn transform<const D: usize>(p: &[f64; D], scale: f64, shift: f64) -> [f64; D] {
     let mut r = [0.0; D];
     for i in 0..D {
-        r[i] = (p[i] + if i % 2 == 0 { shift } else { -shift / 2.0 }) * scale;
+        r[i] = if scale < 0.0 { (p[i] + shift) * scale } else { (p[i] + if i % 2 == 0 { shift } else { -shift / 2.0 }) * scale };
     }
     r
 }
@@ -229,6 +229,9 @@ fn run_dim<const D: usize>(rep: &Report, cn: &Counters, alphabet: &[[f64; D]], a
 
 fn main() {
     let args = parse_args();
+    if let Some(p) = &args.replay {
+        std::process::exit(vcore::replay::generic(p));
+    }
     let rep = Report::new("C12", &args);
     let n_self = exact::self_check();
     let cn = Counters { evals: AtomicU64::new(0), tuples: AtomicU64::new(0), nontrivial: AtomicU64::new(0), strict_claims: AtomicU64::new(0), degenerate_claims: AtomicU64::new(0), not_asserted: AtomicU64::new(0) };
@@ -241,8 +244,14 @@ fn main() {
         ("scale2^40", 2f64.powi(40), 0.0),
         ("shift16", 1.0, 16.0),
         ("scale3/8", 0.375, 0.0),
+        // all-negative and non-dyadic images of the grid (row sums <= 0, pivot ratios that are not powers of two)
+        ("negated", -1.0, 0.0),
+        ("x-7", -7.0, 0.0),
+        ("x7", 7.0, 0.0),
+        ("x-7 of shifted", -7.0, 1.0),
+        ("x-13/3", -13.0 / 3.0, 0.0),
     ];
-    let unit_only: Vec<(&str, f64, f64)> = vec![("unit", 1.0, 0.0), ("scale2^-10", 2f64.powi(-10), 0.0), ("shift16", 1.0, 16.0)];
+    let unit_only: Vec<(&str, f64, f64)> = vec![("unit", 1.0, 0.0), ("scale2^-10", 2f64.powi(-10), 0.0), ("shift16", 1.0, 16.0), ("x-7", -7.0, 0.0), ("x-7 of shifted", -7.0, 1.0)];
     let mut bounds = serde_json::Map::new();
     // D = 2
     let g2 = alpha::grid::<2>(if thorough { 5 } else { 4 });
@@ -261,7 +270,10 @@ fn main() {
     run_dim::<4>(&rep, &cn, &g4, thorough, if thorough { &full } else { &unit_only }, false);
     bounds.insert("D4".into(), json!({"alphabet": g4.len(), "perms": if thorough { "all" } else { "cyclic+adjacent transpositions" }}));
     let g5 = alpha::cube_alphabet::<5>();
-    run_dim::<5>(&rep, &cn, &g5, thorough, &unit_only[..if thorough { 3 } else { 1 }], false);
+    run_dim::<5>(&rep, &cn, &g5, thorough, if thorough { &unit_only[..] } else { &unit_only[..1] }, false);
+    if !thorough {
+        run_dim::<5>(&rep, &cn, &g5[..8], false, &unit_only[3..4], false);
+    }
     bounds.insert("D5".into(), json!({"alphabet": g5.len(), "perms": if thorough { "all" } else { "cyclic+adjacent transpositions" }}));
 
     let strict = cn.strict_claims.load(Ordering::Relaxed);
